@@ -34,8 +34,8 @@ func c11Storm(id string, seed int64) (res c11Result) {
 			st.Close()
 		}
 		mu.Unlock()
-		ts.CloseClientConnections()
-		ts.Close()
+		closeClientConns(ts)
+		closeTS(ts)
 	}()
 	ctx := context.Background()
 	sid, err := peer.Handshake(ctx, url, nil)
